@@ -110,6 +110,7 @@ let mk start ctx send sendreq close ret wait parked used calls queue running =
 let mask_of = function
   (*                 start ctx   send  sreq  close ret   wait  parkd used  calls queue runng *)
   | "c01" -> mk      true  false true  false false false false true  false false true  false
+  | "c02" -> mk      true  false true  false false false false false false false true  true
   | "c03" -> mk      true  false false false false false false true  false false true  false
   | "c06" -> mk      true  false true  false false false false true  false false false false
   | "c07" -> mk      true  true  true  false false true  false false true  false false false
